@@ -82,6 +82,12 @@ static void initAlphabet() {
   full("HDA:3", 3, 'Y', {"01.01.2000", "31.12.2099", "-.-.2012"});
   full("UCH/0=off+1=on+254=max", 1, 'L', {"off", "max", "on"});
   for (size_t k = g_alpha.size() - 5; k < g_alpha.size(); k++) g_alpha[k].ext = true;
+  // bit fields with a divisor (a derived type of the bit type: same bit position as the plain one)
+  // bit fields reached through a template (a derived type of the bit type: same bit position as the plain one)
+  bits("flag7", 7, 1);
+  g_alpha.back().ext = true;
+  bits("bits32", 3, 2);
+  g_alpha.back().ext = true;
   // truncated time in 6 bits of one byte (see above)
   g_subByte = (int)g_alpha.size();
   g_alpha.push_back(FT{"TTH", 1, false, 0, 0, false, false, 'T', {"00:00", "23:00", "10:30"}});
@@ -851,6 +857,11 @@ int main(int argc, char** argv) {
   vp::Args A = vp::parseArgs(argc, argv);
   initAlphabet();
   g_templates = new DataFieldTemplates();
+  {
+    std::istringstream ts("# name,type,divisor/values,unit,comment\nflag7,BI7\nbits32,BI3:2\n");
+    string terr;
+    if (g_templates->readFromStream(&ts, "_templates.csv", 0, false, nullptr, &terr) != RESULT_OK) { fprintf(stderr, "c10: templates refused: %s\n", terr.c_str()); return 3; }
+  }
   for (auto it = DataTypeList::getInstance()->begin(); it != DataTypeList::getInstance()->end(); ++it) g_baseKeys.insert(it->first);
   for (size_t t = 0; t < g_alpha.size(); t++) if (g_alpha[t].var) g_varIndex = (int)t;
   if (A.replay) return replay(A.replayCase);
